@@ -56,7 +56,7 @@ pub fn install_quiet_panic_hook() {
 fn first_line(s: &str) -> String {
     let l = s.lines().next().unwrap_or("");
     if l.len() > 200 {
-        l[..200].to_string()
+        l.chars().take(200).collect()
     } else {
         l.to_string()
     }
